@@ -5,7 +5,8 @@
   reachable backend receives and the LMD-side columns (peer_key, peer_name, …) lmd fills in itself.
   The theorems follow the request through the model `Lmd.Passthrough`:
 
-    1. `sub_request_carries`, `extra_sort_columns`, `extra_backend_columns` — what the backends are asked
+    1. `sub_request_carries`, `extra_sort_columns`, `extra_backend_columns`, `stats_ignore_sort` — what the
+       backends are asked
     2. `who_is_asked`, `failed_exact`, `answering_or_failed`, `failing_peer_no_influence` — who is asked
     3. `splice_eq_weave`, `splice_positions`, `splice_requested_positions`, `splice_cut` — the reply rows
     4. `merge_complete`, `merge_unsorted`, `mem_spliced` — nothing lost, nothing invented
@@ -16,8 +17,9 @@
 
   The replies of the backends are arbitrary data (`PTPeer.reply`); helper lemmas live in
   `Lmd.Lemmas.PassthroughLemmas` (namespace `Lmd.PT`).  Vocabulary used in the statements:
-  `PT.allCols t req` is the row lmd builds (requested columns, then the sort columns that are not
-  requested), `PT.weave peer cols brow` walks along `cols` and takes the LMD-side value for an LMD-side
+  `PT.effSort req` is the sort list that counts for what is fetched (the `Sort:` headers of a data
+  request; nothing for a Stats request, whose result is not sorted), `PT.allCols t req` is the row lmd
+  builds (requested columns, then the columns of `effSort req` that are not requested), `PT.weave peer cols brow` walks along `cols` and takes the LMD-side value for an LMD-side
   column and the next backend cell otherwise, `PT.nv cols` counts the backend-side columns of `cols`,
   `PT.spliced t req peers` are the spliced reply rows of all answering backends, `PT.cutRow t req r`
   cuts the added sort columns off again.
@@ -31,14 +33,21 @@ open Lean (Json)
 /-! ## 1. what the backends are asked -/
 
 /-- the sort columns lmd has to add to the row because they are not requested: the first sort column of
-    every name that is not a requested column name, in the order of the `Sort:` headers -/
+    every name that is not a requested column name, in the order of the `Sort:` headers — of a data
+    request; a Stats request is not sorted and nothing is added (`effSort req = []`) -/
 abbrev extraSortCols (t : Table) (req : Request) : List Column :=
-  newSortCols ((requestColumns t req).map (·.name)) req.sort
+  newSortCols ((requestColumns t req).map (·.name)) (effSort req)
+
+/-- The sort list that counts: the `Sort:` headers for a request without Stats, nothing for a Stats request. -/
+theorem effSort_cases (req : Request) :
+    (req.stats = [] → effSort req = req.sort) ∧ (req.stats ≠ [] → effSort req = []) ∧
+    (req.sort = [] → effSort req = []) :=
+  ⟨effSort_of_stats_nil req, effSort_of_stats_ne_nil req, effSort_of_sort_nil req⟩
 
 /-- The request every backend receives has the client's table, filter, stats, limit and user unchanged,
     asks for JSON with the fixed16 header, carries no Sort and no Offset (lmd sorts and cuts itself), and
     asks for exactly the backend-side requested columns in request order, followed by the backend-side
-    sort columns that are not requested. -/
+    sort columns that are not requested (none for a Stats request, see `stats_ignore_sort`). -/
 theorem sub_request_carries (t : Table) (req : Request) :
     let sub := subRequest req (ptPlan t req)
     sub.table = req.table ∧ sub.filter = req.filter ∧ sub.stats = req.stats ∧ sub.limit = req.limit ∧
@@ -52,32 +61,32 @@ theorem sub_request_carries (t : Table) (req : Request) :
   rfl
 
 /-- The added sort columns: no name twice, none of them named like a requested column, all of them
-    columns of `Sort:` headers and in the order of these headers; and every sort column is either named
-    like a requested column or named like one of the added ones — so every sort key can be read from the
-    row lmd builds. -/
+    columns of `Sort:` headers that count (`effSort req`: those of a request without Stats) and in the
+    order of these headers; and every such sort column is either named like a requested column or named
+    like one of the added ones — so every sort key can be read from the row lmd builds. -/
 theorem extra_sort_columns (t : Table) (req : Request) :
     ((extraSortCols t req).map (·.name)).Nodup ∧
     (∀ c ∈ extraSortCols t req, c.name ∉ (requestColumns t req).map (·.name)) ∧
-    (extraSortCols t req).Sublist (req.sort.filterMap (·.col)) ∧
-    (∀ sf ∈ req.sort, ∀ c, sf.col = some c →
+    (extraSortCols t req).Sublist ((effSort req).filterMap (·.col)) ∧
+    (∀ sf ∈ effSort req, ∀ c, sf.col = some c →
       c.name ∈ (requestColumns t req).map (·.name) ∨ c.name ∈ (extraSortCols t req).map (·.name)) :=
   ⟨newSortCols_nodup _ _, newSortCols_not_seen _ _, newSortCols_sublist _ _,
     fun sf hsf c hc => newSortCols_cover _ _ sf c hsf hc⟩
 
-/-- The extra part of the backend column list: each name once; every element is the name of a sort
-    field's column that is backend-side and not among the requested column names; and conversely — when
+/-- The extra part of the backend column list (sort fields are those that count, `effSort req`): each
+    name once; every element is the name of a sort field's column that is backend-side and not among the requested column names; and conversely — when
     sort columns of the same name are the same column, as they are after parsing, where the column is
     looked up by name — every such sort column occurs. -/
 theorem extra_backend_columns (t : Table) (req : Request) :
     let extra := ((extraSortCols t req).filter (·.storage != .virt)).map (·.name)
     extra.Nodup ∧
-    (∀ e ∈ extra, ∃ sf ∈ req.sort, ∃ c, sf.col = some c ∧ c.storage ≠ .virt ∧ c.name = e ∧
+    (∀ e ∈ extra, ∃ sf ∈ effSort req, ∃ c, sf.col = some c ∧ c.storage ≠ .virt ∧ c.name = e ∧
       e ∉ (requestColumns t req).map (·.name)) ∧
-    ((∀ sf ∈ req.sort, ∀ sf' ∈ req.sort, ∀ c c', sf.col = some c → sf'.col = some c' → c.name = c'.name → c = c') →
-      ∀ sf ∈ req.sort, ∀ c, sf.col = some c → c.storage ≠ .virt →
+    ((∀ sf ∈ effSort req, ∀ sf' ∈ effSort req, ∀ c c', sf.col = some c → sf'.col = some c' → c.name = c'.name → c = c') →
+      ∀ sf ∈ effSort req, ∀ c, sf.col = some c → c.storage ≠ .virt →
         c.name ∉ (requestColumns t req).map (·.name) → c.name ∈ extra) := by
   obtain ⟨hnd, hns, hsub, hcov⟩ := extra_sort_columns t req
-  have hmemsort : ∀ c ∈ extraSortCols t req, ∃ sf ∈ req.sort, sf.col = some c := by
+  have hmemsort : ∀ c ∈ extraSortCols t req, ∃ sf ∈ effSort req, sf.col = some c := by
     intro c hc
     have := hsub.subset hc
     rw [List.mem_filterMap] at this
@@ -258,19 +267,20 @@ theorem splice_positions (t : Table) (req : Request) (peer : PTPeer) (brow : Lis
     exact weave_getElem? peer _ brow (by omega) i c hc
 
 /-- The same for the requested columns alone: position `i` of the spliced row belongs to the `i`-th
-    requested column; the added sort columns stand behind position `cols.length`. -/
+    requested column; the added sort columns stand behind position `cols.length`, and there are none when
+    no `Sort:` header counts (no Sort, or a Stats request). -/
 theorem splice_requested_positions (t : Table) (req : Request) (peer : PTPeer) (brow : List Json)
     (h : brow.length = (ptPlan t req).backendCols.length) :
     let cols := requestColumns t req
     let row := spliceRow peer (ptPlan t req).virtuals brow
     cols.length ≤ row.length ∧
-    (req.sort = [] → row.length = cols.length) ∧
+    (effSort req = [] → row.length = cols.length) ∧
     ∀ (i : Nat) (c : Column), cols[i]? = some c →
       row[i]? = if c.storage == .virt then some (ptVirtual peer c) else brow[nv (cols.take i)]? := by
   obtain ⟨hlen, hpos⟩ := splice_positions t req peer brow h
   refine ⟨?_, ?_, ?_⟩
   · rw [hlen]; simp [allCols]
-  · intro hs; rw [hlen, allCols_of_sort_nil t req hs]
+  · intro hs; rw [hlen, allCols_of_effSort_nil t req hs]
   · intro i c hc
     have hi : i < (requestColumns t req).length := by
       rcases Nat.lt_or_ge i (requestColumns t req).length with h | h
@@ -284,10 +294,11 @@ theorem splice_requested_positions (t : Table) (req : Request) (peer : PTPeer) (
 
 /-- With a `Sort:` header the spliced row is cut to the requested width before it is answered; what
     remains is the weave of the requested columns alone with the first backend cells: the sort columns
-    that were fetched in addition are gone. -/
+    that were fetched in addition are gone.  (The hypothesis excludes only a data request with a Sort but
+    without any requested column; where no `Sort:` header counts nothing was added and nothing is lost.) -/
 theorem splice_cut (t : Table) (req : Request) (peer : PTPeer) (brow : List Json)
     (h : brow.length = (ptPlan t req).backendCols.length)
-    (hw : 0 < (requestColumns t req).length ∨ req.sort = []) :
+    (hw : 0 < (requestColumns t req).length ∨ effSort req = []) :
     cutRow t req (spliceRow peer (ptPlan t req).virtuals brow) =
       weave peer (requestColumns t req) (brow.take (nv (requestColumns t req))) := by
   have hp := ptPlan_planOf t req
@@ -295,16 +306,25 @@ theorem splice_cut (t : Table) (req : Request) (peer : PTPeer) (brow : List Json
     rw [nv_eq_length_backendOf, ← hp.backend, h]
   rw [splice_eq_weave t req peer brow h]
   unfold cutRow
-  by_cases hs : req.sort = []
+  by_cases hs : effSort req = []
   · have hnv' : nv (requestColumns t req) = brow.length := by
-      rw [← hnv, allCols_of_sort_nil t req hs]
-    simp only [hs, List.isEmpty_nil, if_true]
-    rw [allCols_of_sort_nil t req hs, hnv', List.take_length]
+      rw [← hnv, allCols_of_effSort_nil t req hs]
+    have hlen : (weave peer (requestColumns t req) brow).length = (requestColumns t req).length := by
+      rw [weave_length _ _ _ (by omega)]; omega
+    rw [allCols_of_effSort_nil t req hs, hnv', List.take_length]
+    split
+    · rfl
+    · split
+      · rw [← hlen, List.take_length]
+      · rfl
   · have hw' : 0 < (requestColumns t req).length := by
       rcases hw with h | h
       · exact h
       · exact absurd h hs
-    have hse : req.sort.isEmpty = false := by simpa using hs
+    have hse : req.sort.isEmpty = false := by
+      cases hq : req.sort with
+      | nil => exact absurd (effSort_of_sort_nil req hq) hs
+      | cons _ _ => rfl
     simp only [hse, Bool.false_eq_true, if_false, gt_iff_lt, hw', if_true]
     rw [allCols]
     apply weave_append_take
@@ -395,15 +415,40 @@ theorem merge_sorted (t : Table) (req : Request) (peers : List PTPeer) :
   rw [List.pairwise_map]
   exact sortedKeyed_pairwise t req peers
 
-/-- Where the sort keys are read: lmd records one position per sort field (that has a column), and every
-    position points at a column of the built row that is named like the sort field's column — a requested
-    column of that name if there is one, else the added sort column. -/
+/-- Where the sort keys are read: lmd records one position per sort field that counts (`effSort req`)
+    and has a column, and every position points at a column of the built row that is named like the sort
+    field's column — a requested column of that name if there is one, else the added sort column.  (For a
+    Stats request no sort field counts and no position is recorded.) -/
 theorem sort_key_column (t : Table) (req : Request) :
-    (req.sort.filter (·.col.isSome)).length = (ptPlan t req).sortIdx.length ∧
-    ∀ (k : Nat) (sf : SortField) (j : Nat), (req.sort.filter (·.col.isSome))[k]? = some sf →
+    ((effSort req).filter (·.col.isSome)).length = (ptPlan t req).sortIdx.length ∧
+    ∀ (k : Nat) (sf : SortField) (j : Nat), ((effSort req).filter (·.col.isSome))[k]? = some sf →
       (ptPlan t req).sortIdx[k]? = some j →
       ∃ c c', sf.col = some c ∧ (allCols t req)[j]? = some c' ∧ c'.name = c.name :=
   (allPoint_iff _ _ _).mp (ptPlan_sortIdx t req)
+
+/-- The same for a request without Stats — the only kind the sorted merge is used for — in the terms of
+    the merge: the sort fields `ptKeys` pairs with the recorded positions are the `Sort:` headers (with a
+    column) of the request, there is exactly one position per field, and the key of field `k` is read from
+    a column named like the field's column. -/
+theorem sort_key_column_data (t : Table) (req : Request) (hst : req.stats = []) :
+    (req.sort.filter (·.col.isSome)).length = (ptPlan t req).sortIdx.length ∧
+    (∀ (k : Nat) (sf : SortField) (j : Nat), (req.sort.filter (·.col.isSome))[k]? = some sf →
+      (ptPlan t req).sortIdx[k]? = some j →
+      ∃ c c', sf.col = some c ∧ (allCols t req)[j]? = some c' ∧ c'.name = c.name) ∧
+    (∀ row, (ptKeys req (ptPlan t req) row).length = (req.sort.filter (·.col.isSome)).length) ∧
+    (∀ (row : List Json) (k : Nat) (sf : SortField) (j : Nat), (req.sort.filter (·.col.isSome))[k]? = some sf →
+      (ptPlan t req).sortIdx[k]? = some j →
+      (ptKeys req (ptPlan t req) row)[k]? =
+        some (ptKeyOf ((sf.col.map (·.dtype)).getD .str) (row.getD j Json.null))) := by
+  have h := sort_key_column t req
+  rw [effSort_of_stats_nil req hst] at h
+  refine ⟨h.1, h.2, ?_, ?_⟩
+  · intro row
+    simp [ptKeys, h.1]
+  · intro row k sf j hsf hj
+    have hz : ((req.sort.filter (·.col.isSome)).zip (ptPlan t req).sortIdx)[k]? = some (sf, j) :=
+      List.getElem?_zip_eq_some.mpr ⟨hsf, hj⟩
+    simp only [ptKeys, List.getElem?_map, hz, Option.map_some]
 
 /-! ## 6. Limit and Offset -/
 
@@ -564,6 +609,29 @@ theorem counters_add_up (t : Table) (req : Request) (peers : List PTPeer)
         exact Option.some.inj this
       rw [hg, ← ha]
       simp
+
+/-- A `Sort:` header of a Stats request changes nothing: the plan is the plan of the request without its
+    Sort headers, so the request the backends receive asks for exactly the backend-side requested columns
+    (no column is added for a sort key — an added column would change the backends' grouping and the width
+    of their reply rows), the request itself is the one sent for the Sort-less request, and the Stats
+    result — groups, numbers, skipped count, failed map — is that of the Sort-less request. -/
+theorem stats_ignore_sort (t : Table) (req : Request) (peers : List PTPeer) (hs : req.stats ≠ []) :
+    ptPlan t req = ptPlan t { req with sort := [] } ∧
+    (subRequest req (ptPlan t req)).columns =
+      ((requestColumns t req).filter (·.storage != .virt)).map (·.name) ∧
+    subRequest req (ptPlan t req) = subRequest { req with sort := [] } (ptPlan t { req with sort := [] }) ∧
+    extraSortCols t req = [] ∧
+    ptStats t req peers = ptStats t { req with sort := [] } peers := by
+  have hp := ptPlan_stats_sort t req hs
+  have he : effSort req = [] := effSort_of_stats_ne_nil req hs
+  refine ⟨hp, ?_, ?_, ?_, ?_⟩
+  · show (ptPlan t req).backendCols = _
+    rw [(ptPlan_planOf t req).backend, allCols_of_effSort_nil t req he]
+    rfl
+  · rw [← hp]; rfl
+  · show newSortCols _ (effSort req) = []
+    rw [he]; rfl
+  · rw [ptStats_eq, ptStats_eq, statsFold_stats_sort t req peers hs]
 
 /-! ## 8. nobody answers -/
 
@@ -729,6 +797,20 @@ def peerGB : PTPeer := { id := "b", name := "Beta", online := true, reply := som
 example : (ptStats logT reqG [peerGA, peerGB]).rows =
     [(["1"], [{ kind := .sum, stats := 12000, count := 2 }]), (["2"], [{ kind := .sum, stats := 1000, count := 1 }])] ∧
     (ptStats logT reqG [peerGA, peerGB]).skipped = 1 := by decide
+
+/-- `Stats: class = 1` + `Stats: sum state` + `Sort: time asc`: the Sort header is ignored -/
+def reqSS : Request := { reqS with sort := [{ name := "time", desc := false, col := some cTime }] }
+
+example : reqSS.stats ≠ [] ∧ reqSS.sort ≠ [] := ⟨by simp [reqSS, reqS], by simp [reqSS]⟩
+example : effSort reqSS = [] ∧ effSort req2 = req2.sort := ⟨rfl, rfl⟩
+example : (subRequest reqSS (ptPlan logT reqSS)).columns = [] ∧ (ptPlan logT reqSS).sortIdx = [] ∧
+    ptPlan logT reqSS = ptPlan logT reqS := ⟨by decide, by decide, rfl⟩
+example : (ptStats logT reqSS [peerSA, peerC, peerSB]).rows =
+    [([], [{ kind := .counter, stats := 7, count := 7 }, { kind := .sum, stats := 12000, count := 2 }])] ∧
+    (ptStats logT reqSS [peerSA, peerC, peerSB]).skipped = 0 := by decide
+/-- grouped, with `Sort: time asc`: only the group-by column is asked for -/
+example : (subRequest { reqG with sort := reqSS.sort } (ptPlan logT { reqG with sort := reqSS.sort })).columns =
+    ["class"] := by decide
 
 /-- nobody answers -/
 example : (ptStats logT reqS [peerC]).rows = [([], [Acc.init .counter, Acc.init .sum])] ∧
